@@ -14,7 +14,7 @@ CLAIMED = {
  "C10": ("release step at every writer begin under metalock, every exit of a read transaction reaches RemoveReadonlyTXID, same registration key, ReleasePendingPages tabulated for 0/1/2 readers, order-dependent reads of the reader list preceded by a sort, counts published before the writer lock is released, pending->free only through the release path which runs only at writer begin; db.allocate asks the free list first and returns an offered run without growing the file (tabulated)", "4 C10, 8.2"),
  "C11": ("checksum covers every byte before it on all gc architectures, Validate truth table (8 rows), validate-before-use in page-size probing and Open, decision tables of db.mmap / db.meta() / getPageSize, every rejecting exit of Open closes (with db.opened already set, so close is not a no-op) and returns an error; free-set entry chain re-evaluated (the older meta's state survives until the next writer begins, so the fallback presents exactly that state)", "4 C11, 8.2"),
  "C12": ("version-2 layout table of the 5 mapped structs on all gc architectures, format constants, checksum algorithm and coverage, writer/reader field pairing, 0xFFFF convention, initial 4-page layout evaluated from init, checksum-after-mutation; an inline bucket owns no pages (inlineable() tabulated); a page carries exactly one type flag (type predicates tabulated); accessor integrity: each of the 50 getters/setters of the mapped structs reads/writes exactly its own field", "4 C12"),
- "C13": ("NARROW claim — the structural skeleton that makes the free list independent of how it was obtained: freepages() scans exactly [2, high-water mark) minus what the walk from the root reached; loadFreelist chooses persisted-vs-rebuilt by hasSyncedFreelist, once, with the backend from db.FreelistType; Open flushes a missing free list exactly when NoFreelistSync is off; re-evaluated: both NoFreelistSync arms redefine the freelist pointer, backend agreement, Init forgets previous content, rollback reload by the same predicate, syncs skipped only under NoSync. Equality of contents / API results across option assignments is NOT decided; the lazily loaded free list is published only through freelistLoad.Do (assigned only in the Once body, not touched by loadFreelist before Do returned, used by tx.check only after loadFreelist())", "5 and 8.2"),
+ "C13": ("NARROW claim — the structural skeleton that makes the free list independent of how it was obtained: freepages() scans exactly [2, high-water mark) minus what the walk from the root reached; loadFreelist chooses persisted-vs-rebuilt by hasSyncedFreelist, once, with the backend from db.FreelistType; Open flushes a missing free list exactly when NoFreelistSync is off; re-evaluated: both NoFreelistSync arms redefine the freelist pointer, backend agreement, Init forgets previous content, rollback reload by the same predicate, syncs skipped only under NoSync. Equality of contents / API results across option assignments is NOT decided; the lazily loaded free list is published only through freelistLoad.Do (assigned only in the Once body, not touched by loadFreelist before Do returned, used by tx.check only after loadFreelist()); for an existing file the page size in force at the first mapping is the one read from the file (Options.PageSize only seeds new files)", "5 and 8.2"),
  "C14": ("backup cut from tx.meta (never db.meta()), both meta pages checksummed after their last change with page 0 keeping the higher txid, data window [2*pageSize, tx.Size()) and byte accounting on the success path and on each failing write (WriteTo evaluated symbolically), CopyFile closes the destination and returns the close error; free-set entry chain re-evaluated (the snapshot's pages stay out of the free set while the backup reader is registered)", "4 C14"),
  "C15": ("SetSequence(seq) after every CreateBucket in both arms with seq = Sequence() of the reported bucket, one captured transaction cell re-assigned after an intermediate commit, source flows only into walk -> View and is opened ReadOnly by the CLI, callback/walk errors abort before the final commit; a parent with an unopened paged sub-bucket is never written inline (inlineable() tabulated with an empty per-transaction bucket cache)", "4 C15"),
  "C18": ("the size handed to file.Truncate is compared with / clamped to db.MaxSize on every path (windows: in db.mmap before mapping), size-limit error raised before remap and before the high-water mark moves and propagated unchanged, DB.MaxSize has Options.MaxSize as its only source, a size-limit failure of Commit takes the physical rollback; db.allocate's size-limit decision tabulated (refusal before the high-water mark moves, ErrMaxSizeReached, requests that fit are granted)", "4 C18, 8.2"),
